@@ -8,7 +8,7 @@ SCEN_FLAGS = {0: "gp_had_to_wait", 1: "concurrent_synchronize", 2: "nested_secti
               54: "signal_run", 55: "cas_fail", 56: "mutex_block", 57: "stale_read"}
 E1_ASSUMPTIONS = [
     "engine E1: x86-TSO store-buffer simulation; compiler reorderings other than those of this gcc -O1 build are not explored",
-    "library compiled with CONFIG_RCU_USE_ATOMIC_BUILTINS so that every atomic/barrier is visible to the engine; spin bounds RCU_QS_ACTIVE_ATTEMPTS=URCU_WAIT_ATTEMPTS=2, INIT_READER_COUNT=2 (hooks)",
+    "library compiled with CONFIG_RCU_USE_ATOMIC_BUILTINS so that every atomic/barrier is visible to the engine; spin bounds RCU_QS_ACTIVE_ATTEMPTS=URCU_WAIT_ATTEMPTS=2, INIT_READER_COUNT=1 (hooks)",
 ]
 TERMINATION_STATUSES = ("deadlock", "stuck", "budget", "solo_hang", "solo_block")
 
